@@ -33,7 +33,7 @@ func init() {
 	register(&c02{base{
 		id:          "C02",
 		level:       lvlExploration,
-		rule:        "each case builds a PAR1 or PAR2 archive state WITHOUT a capacity filter (damage within and beyond capacity, partially repairable sets, deleted/garbled/foreign recovery files, recovery payload altered and re-checksummed so that only the file-hash check can stop wrong bytes, bystander files and sub-directories incl. names matching <base>.*.par2) and runs Create, Verify and Repair (double-check on and off) through a recording file-system seam over the real directory (in-process layer) and, for every fifth case, the built par binary under strace (process layer). Offline checker over (event log, before/after snapshots, result, originals): every write/create/unlink/rename event must target a protected file of the set; the bytes of every written file must equal the protected bytes; written paths = RepairedPaths; every other file is byte-identical; Verify issues no mutating event; Create leaves its inputs unchanged. A key is (format, state kind, outcome, layer). Kinds altered-mixed (shifted files plus one that spoilt recovery data cannot rebuild: everything written must be listed) and recreate-after-edit (in-place edit behind the first 16 KiB, Create again with the same options, then Repair of another file).. A fifth of the PAR1 cases use 200-211 volumes with RAR-like input names (<base>.r00 ...); pinned kind input-named-like-output (an input named like the index or a recovery file about to be written: Create must not touch it - witness of defect V).",
+		rule:        "each case builds a PAR1 or PAR2 archive state WITHOUT a capacity filter (damage within and beyond capacity, partially repairable sets, deleted/garbled/foreign recovery files, recovery payload altered and re-checksummed so that only the file-hash check can stop wrong bytes, bystander files and sub-directories incl. names matching <base>.*.par2) and runs Create, Verify and Repair (double-check on and off) through a recording file-system seam over the real directory (in-process layer) and, for every fifth case, the built par binary under strace (process layer). Offline checker over (event log, before/after snapshots, result, originals): every write/create/unlink/rename event must target a protected file of the set; the bytes of every written file must equal the protected bytes; written paths = RepairedPaths; every other file is byte-identical; Verify issues no mutating event; Create leaves its inputs unchanged. A key is (format, state kind, outcome, layer). Kinds altered-mixed (shifted files plus one that spoilt recovery data cannot rebuild: everything written must be listed) and recreate-after-edit (in-place edit behind the first 16 KiB, Create again with the same options, then Repair of another file).. A fifth of the PAR1 cases use 200-211 volumes with RAR-like input names (<base>.r00 ...); pinned kind input-named-like-output (an input named like the index or a recovery file about to be written: Create must not touch it - witness of defect V).. Case twins of deleted files as bystanders; half of the strace repairs name the index twice and compare the command's Repaired-files line with the files it wrote.",
 		assumptions: append([]string{"strace's view is complete for the traced syscall set (gopar has no mmap writes)"}, commonAssumptions...),
 		opts:        core.WorkerOpts{CrashIsViolation: false, WallSeconds: 2400},
 	}})
